@@ -481,3 +481,46 @@ Proof.
   pose proof (firstn_le_keeps cs s (S i) j L _ _ _ KM P) as P2.
   exists [d]. rewrite A2, (get_present _ _ _ _ P2). split; auto. discriminate.
 Qed.
+
+(* ---------------------------------------------------------------- real-time order *)
+Lemma cstep_hist_mono s i s' : cstep s i = Some s' -> exists tail, hist s' = (hist s ++ tail)%list.
+Proof.
+  unfold cstep, cstep_gen. destruct (nth_error (thr s) i) as [t|]; [|discriminate].
+  destruct (st t) as [|md b p].
+  - destruct (todo t) as [|c rest]; [discriminate|]. destruct (mode_of c).
+    + destruct (existsb in_excl (thr s)); [discriminate|]. intros E; inversion E; subst; simpl. eauto.
+    + destruct (existsb in_cs (thr s)); [discriminate|]. destruct (exec_seq (body_of c) (sigma s)).
+      intros E; inversion E; subst; simpl. eauto.
+  - destruct b; intros E; inversion E; subst; simpl; exists []; rewrite app_nil_r; reflexivity.
+Qed.
+Lemma crun_hist_mono sched : forall s, exists tail, hist (crun s sched) = (hist s ++ tail)%list.
+Proof.
+  induction sched as [|i r IH]; intros s; simpl.
+  - exists []. rewrite app_nil_r. reflexivity.
+  - destruct (cstep s i) as [s'|] eqn:E; auto.
+    destruct (cstep_hist_mono _ _ _ E) as (t1 & H1). destruct (IH s') as (t2 & H2).
+    exists (t1 ++ t2)%list. rewrite H2, H1, app_assoc. reflexivity.
+Qed.
+Lemma crun_app a : forall s b, crun s (a ++ b) = crun (crun s a) b.
+Proof. induction a as [|i a IH]; intros s b; simpl; auto. destruct (cstep s i); auto. Qed.
+
+(* The linearization respects real time.  Cut any execution in two: at the cut (state s1) the linearization
+   recorded so far (a) already contains the entry of every call that has RETURNED by then and (b) contains only
+   calls that have been started by then; whatever happens afterwards only APPENDS to it.  Hence a call that
+   returned before another one was invoked precedes it in the final linearization. *)
+Lemma real_time_order_l s0 progs sched1 sched2 :
+  let s1 := crun (cinit s0 progs) sched1 in
+  let s2 := crun (cinit s0 progs) (sched1 ++ sched2) in
+  (exists tail, hist s2 = (hist s1 ++ tail)%list) /\
+  (forall i, (i < List.length progs)%nat ->
+     map e_call (of_thread i (hist s1)) = started_of s1 i /\
+     (List.length (returned_of s1 i) <= List.length (of_thread i (hist s1)))%nat).
+Proof.
+  intros s1 s2. split.
+  - unfold s2. rewrite crun_app. apply crun_hist_mono.
+  - intros i Li. pose proof (inv_run s0 progs sched1 _ (inv_init s0 progs)) as IV. fold s1 in IV.
+    rewrite <- (I_len _ _ _ IV) in Li. apply nth_error_Some in Li.
+    unfold started_of, returned_of. destruct (nth_error (thr s1) i) as [t|] eqn:T; [|congruence].
+    destruct (I_ht _ _ _ IV _ _ T) as [A B]. split; auto.
+    rewrite <- (map_length e_res), B, (I_lin _ _ _ IV _ _ T), app_length. lia.
+Qed.
